@@ -16,7 +16,7 @@ func init() {
 	register(&Property{
 		ID:          "C09",
 		Engines:     []string{"cfg"},
-		Explanation: "HTTP response framing, structural part: every success return of Response.Write / writeChunk reports len(data) — the value bound to it or the direct result of conn.Write(data) on the same data (O1); on every success path of writeChunk the appended tokens are hex(len) CRLF data CRLF with hex = formatInt(l,16) (O2); the final flush emits \"0\" CRLF (name \": \" value CRLF)* CRLF in chunked mode and never writes pending body before pending head in identity mode (O3); every path of checkChunked that sets chunked removes Content-Length and ends with Transfer-Encoding: chunked present, the fallback requires HTTP/1.1, no Content-Length and a status other than 204/304, eoncodeHead emits Content-Length only on the !chunked edge (O4); both are encode-once behind their flags (O5); a value bound by a comma-ok type assertion is not dereferenced off the ok edge (O6); a freshly allocated buffer is truncated or filled before it is appended to (O7). Write counts len(data) into bodyWritten at most once per call and on every accepting path, and writeChunk is reached only with a non-empty chunk (O8). The head is encoded only after WriteHeader and checkChunked (O9); ReadFrom emits raw bytes only in identity framing with a positive declared length, from the reader it was given (O10); nil flow of the two response buffers (O11); WriteHeader keeps only a valid, non-negative Content-Length (O12). The chunked fallback has exactly its four conditions (O4); only the frozen writers store to the pending buffers (O13). Status and trailers are the handler's (O14).",
+		Explanation: "HTTP response framing, structural part: every success return of Response.Write / writeChunk reports len(data) — the value bound to it or the direct result of conn.Write(data) on the same data (O1); on every success path of writeChunk the appended tokens are hex(len) CRLF data CRLF with hex = formatInt(l,16) (O2); the final flush emits \"0\" CRLF (name \": \" value CRLF)* CRLF in chunked mode and never writes pending body before pending head in identity mode (O3); every path of checkChunked that sets chunked removes Content-Length and ends with Transfer-Encoding: chunked present, the fallback requires HTTP/1.1, no Content-Length and a status other than 204/304, eoncodeHead emits Content-Length only on the !chunked edge (O4); both are encode-once behind their flags (O5); a value bound by a comma-ok type assertion is not dereferenced off the ok edge (O6); a freshly allocated buffer is truncated or filled before it is appended to (O7). Write counts len(data) into bodyWritten at most once per call and on every accepting path, and writeChunk is reached only with a non-empty chunk (O8). The head is encoded only after WriteHeader and checkChunked (O9); ReadFrom emits raw bytes only in identity framing with a positive declared length, from the reader it was given (O10); nil flow of the two response buffers (O11); WriteHeader keeps only a valid, non-negative Content-Length (O12). The chunked fallback has exactly its four conditions (O4); only the frozen writers store to the pending buffers (O13). Status and trailers are the handler's (O14). Every value of a trailer is sent (O14). A declared Content-Length of 0 is enforced (O16).",
 		NotCovered:  "decoding by an independent client (byte-level), the 64 KiB threshold arithmetic, Content-Length versus bytes actually written, trailer values set after the head was encoded",
 		Run:         runC09,
 	})
@@ -49,6 +49,8 @@ func runC09(c *Ctx) {
 	c09StatusAndTrailers(c)
 	c.Rule("C09.O15", "E4", "body bytes go out only where a message body is allowed (not for a HEAD request, not with a 1xx / 204 / 304 status): Write's framing and buffering, the raw path of ReadFrom and the terminating chunk of the final flush are dominated by the positive edge of one predicate over the request method and the status code", 3)
 	c09BodyAllowed(c)
+	c.Rule("C09.O16", "E4", "a handler-declared Content-Length of 0 is enforced: Write returns ErrContentLength on the edge on which the declared length is 0 and the field is present", 1)
+	c09DeclaredZero(c)
 	c.Rule("C09.O12", "E4,E6", "WriteHeader keeps a Content-Length header only when it parsed without error to a value >= 0: every path from the parse that does not delete the field carries both outcomes", 1)
 	c09KeepsValidLength(c)
 	c.Rule("C09.O7", "E2-ext", "a buffer from Malloc(n), n != 0, is truncated or filled before it is the destination of Append/AppendString", 20)
